@@ -247,7 +247,16 @@ impl Grid {
     }
 }
 
+/// A real kernel pseudo terminal: the library draws through a real `console::Term` on the
+/// slave side (so that the `TargetKind::Term` arm and console's own escape sequences run); the
+/// bytes arriving on the master side are fed to the same grid.
+pub struct Pty {
+    pub master: std::os::fd::OwnedFd,
+    pub bytes: u64,
+}
+
 pub struct TermState {
+    pub pty: Option<Pty>,
     pub w: u16,
     pub h: u16,
     pub grid: Grid,
@@ -289,6 +298,7 @@ impl SimTerm {
         assert!(w > 0 && h > 0);
         SimTerm {
             st: Arc::new(Mutex::new(TermState {
+                pty: None,
                 w,
                 h,
                 grid: Grid::new(w as usize, h as usize),
@@ -312,6 +322,80 @@ impl SimTerm {
         }
     }
 
+    /// A SimTerm whose grid is fed from the master side of a real pty; returns the
+    /// `console::Term` for the slave side. None if no pty can be opened.
+    pub fn new_pty(w: u16, h: u16) -> Option<(SimTerm, console::Term)> {
+        use std::os::fd::{FromRawFd, OwnedFd};
+        let mut master: libc::c_int = -1;
+        let mut slave: libc::c_int = -1;
+        let ws = libc::winsize {
+            ws_row: h,
+            ws_col: w,
+            ws_xpixel: 0,
+            ws_ypixel: 0,
+        };
+        // SAFETY: plain FFI call with valid out-pointers; termios left at the kernel default
+        let rc = unsafe { libc::openpty(&mut master, &mut slave, std::ptr::null_mut(), std::ptr::null(), &ws) };
+        if rc != 0 || master < 0 || slave < 0 {
+            return None;
+        }
+        // SAFETY: the descriptors were just returned by openpty and are owned by nobody else
+        let master = unsafe { OwnedFd::from_raw_fd(master) };
+        let slave = unsafe { std::fs::File::from_raw_fd(slave) };
+        unsafe {
+            let fl = libc::fcntl(std::os::fd::AsRawFd::as_raw_fd(&master), libc::F_GETFL);
+            libc::fcntl(std::os::fd::AsRawFd::as_raw_fd(&master), libc::F_SETFL, fl | libc::O_NONBLOCK);
+        }
+        let slave2 = slave.try_clone().ok()?;
+        let term = console::Term::read_write_pair(slave2, slave);
+        if !term.is_term() {
+            return None;
+        }
+        let t = SimTerm::new(w, h);
+        t.lock().pty = Some(Pty { master, bytes: 0 });
+        Some((t, term))
+    }
+
+    /// pty mode: read everything that has arrived on the master side into the grid; bytes that
+    /// arrived count as one painted frame
+    pub fn pump(&self) {
+        let mut s = self.lock();
+        let fd = match &s.pty {
+            Some(p) => std::os::fd::AsRawFd::as_raw_fd(&p.master),
+            None => return,
+        };
+        let mut got = Vec::new();
+        let mut buf = [0u8; 4096];
+        loop {
+            // SAFETY: reading into a local buffer from a descriptor we own
+            let n = unsafe { libc::read(fd, buf.as_mut_ptr() as *mut libc::c_void, buf.len()) };
+            if n <= 0 {
+                break;
+            }
+            got.extend_from_slice(&buf[..n as usize]);
+        }
+        if got.is_empty() {
+            return;
+        }
+        let text = String::from_utf8_lossy(&got).to_string();
+        if text.contains('\t') && s.tab_seen.is_none() {
+            s.tab_seen = Some(text.clone());
+        }
+        s.grid.feed(&text);
+        s.flushes += 1;
+        s.n_calls += 1;
+        if let Some(p) = s.pty.as_mut() {
+            p.bytes += got.len() as u64;
+        }
+        let (f, op) = (s.flushes, s.cur_op);
+        let clock = 0;
+        s.flush_log.push((f, clock, op, usize::MAX));
+    }
+
+    pub fn is_pty(&self) -> bool {
+        self.lock().pty.is_some()
+    }
+
     pub fn with_xcheck(self) -> SimTerm {
         {
             let mut s = self.st.lock().unwrap();
@@ -332,6 +416,7 @@ impl SimTerm {
         self.lock().cur_op = op;
     }
     pub fn n_calls(&self) -> u64 {
+        self.pump();
         self.lock().n_calls
     }
     pub fn n_all(&self) -> u64 {
@@ -339,9 +424,11 @@ impl SimTerm {
         s.n_calls + s.n_queries
     }
     pub fn flushes(&self) -> u64 {
+        self.pump();
         self.lock().flushes
     }
     pub fn transcript(&self) -> Vec<String> {
+        self.pump();
         self.lock().grid.transcript()
     }
     pub fn set_fault(&self, f: FaultPlan) {
